@@ -1,4 +1,5 @@
 import BrushVerif.Proofs.FlowRefine
+import BrushVerif.Gen.ExitCodes
 /-!
 # C02 — break / continue / return / exit unwind exactly as in bash
 
@@ -283,5 +284,33 @@ theorem dec_keeps_scope (d : Nat) (f : Flow) (h : okFlow (d + 1) f) : okFlow d f
 
 example : okFlow 2 (.brk 1) ∧ okFlow 1 (Flow.brk 1).dec := by
   refine ⟨?_, ?_⟩ <;> simp [okFlow, Flow.dec]
+
+
+/-! ## 5. the exit-status encoding (table regenerated from brush-core/src/results.rs on every run) -/
+
+section ExitCodes
+open BrushVerif.Gen.ExitCodes
+
+/-- `u8 → ExecutionExitCode → u8` is the identity: no status is lost or renamed on its way through a result. -/
+theorem exitcode_roundtrip (c : Nat) : toU8 (ofU8 c) = c := by
+  unfold ofU8
+  repeat' split
+  all_goals first | (subst_vars; rfl) | rfl
+
+/-- `is_success` (the `Success` variant) means status 0 and nothing else — what the model's `code = 0` tests stand for. -/
+theorem exitcode_success_iff_zero (c : Nat) : ofU8 c = .success ↔ c = 0 := by
+  unfold ofU8
+  constructor
+  · intro h
+    repeat' split at h
+    all_goals first | assumption | (exact absurd h (by simp)) | simp at h
+  · intro h; subst h; rfl
+
+/-- the constants the control-flow model uses for builtin diagnostics are the table's -/
+theorem model_status_constants :
+    toU8 .unimplemented = 99 ∧ toU8 .notFound = 127 ∧ toU8 .invalidUsage = 2 ∧ toU8 .generalError = 1 := by
+  decide
+
+end ExitCodes
 
 end BrushVerif.C02
